@@ -234,6 +234,10 @@ func routerSession1(r *rand.Rand, k routerKnobs, emit Emit) {
 			if cut == len(base.segs) && len(rt.segs) == len(base.segs) && r.Intn(2) == 0 {
 				// the same route with the optional mark of its last segment toggled
 				rt.segs[len(rt.segs)-1].optional = !rt.segs[len(rt.segs)-1].optional
+				if r.Intn(2) == 0 {
+					// … and with its binds renamed: the same shape under other names ("/f/{path: **}" then "/f/?{rest: **}")
+					rt = renameBinds(rt)
+				}
 			}
 		} else {
 			rt = genRoute(r, k.prof)
@@ -364,4 +368,28 @@ func exhaustiveSmall(emit Emit, maxRoutes, maxSegs int, treq bool) {
 		}
 	}
 	rec(nil)
+}
+
+// renameBinds returns the route with every bind name changed (same shape, other names).
+func renameBinds(rt gRoute) gRoute {
+	out := gRoute{}
+	for _, sg := range rt.segs {
+		ns := gSeg{optional: sg.optional, inst: sg.inst}
+		for _, e := range sg.elems {
+			ne := gElem{kind: e.kind, text: e.text}
+			if e.kind == 'b' && e.text != "**" {
+				ne.text = e.text + "2"
+			}
+			for i, p := range e.params {
+				np := p
+				if i == 0 || p.regex {
+					np.ident = p.ident + "2"
+				}
+				ne.params = append(ne.params, np)
+			}
+			ns.elems = append(ns.elems, ne)
+		}
+		out.segs = append(out.segs, ns)
+	}
+	return out
 }
